@@ -62,6 +62,16 @@ def scenarios(tier: str) -> list[dict]:
     for v in ("clean", "unsent-peer-reads", "unsent-peer-never-reads"):
         out.append({"path": "srv-client-aclose", "variant": v})
         out.append({"path": "srv-shutdown", "variant": v})
+    # another task is inside send_packet() towards a peer that does not read (it holds the object's send lock) when the close starts:
+    # the close can only end through cancellation, and a cancelled close must still release the socket (seed C14-7)
+    # NOT registered yet (session 3 ran out of time before the two reports below were triaged, see DESIGN.md 10.8): set
+    # VERIF_C14_LOCKHOLDER=1 to run them. On the unchanged tree they report client-connected/.../socket-left-open
+    # (AsyncTCPNetworkClient.aclose() cancelled while it waits for the send lock leaves the endpoint open) and
+    # srv-client-aclose/.../close-never-finishes (untriaged).
+    import os as _os
+    if _os.environ.get("VERIF_C14_LOCKHOLDER") == "1":
+        out.append({"path": "srv-client-aclose", "variant": "sender-holds-lock"})
+        out.append({"path": "client-connected", "variant": "sender-holds-lock"})
     return out
 
 
@@ -193,8 +203,12 @@ def run(ctx: Ctx, cfg: dict) -> dict:
             s = loop.create_task(snd())
             for _ in range(4):
                 await asyncio.sleep(0)
-            s.cancel()
-            await asyncio.wait([s])
+            if cfg.get("variant") == "sender-holds-lock":
+                s.add_done_callback(lambda t: t.cancelled() or t.exception())  # it ends with an error once the connection is closed
+                st["sender"] = s
+            else:
+                s.cancel()
+                await asyncio.wait([s])
         st["close_fn"] = obj.aclose
 
         async def first_close() -> None:
@@ -278,7 +292,7 @@ def run(ctx: Ctx, cfg: dict) -> dict:
 
 def oracle(cfg: dict, obs: dict) -> str | None:
     blocks = "blocks" in (cfg.get("fa"), cfg.get("fb"))
-    never = cfg.get("variant") == "unsent-peer-never-reads"
+    never = cfg.get("variant") in ("unsent-peer-never-reads", "sender-holds-lock")
     if obs["status"] == "deadlock":
         if (blocks or never) and not obs["cancel_applied"]:
             return None  # only a cancellation can end a close whose leaf never finishes / whose peer never reads
